@@ -144,38 +144,15 @@ Proof.
   rewrite eval_isoparse, (repr_roundtrip_rest s [41] Hp). reflexivity.
 Qed.
 
-(* the UUID text is interpolated raw between single quotes: faithful iff it contains no quote, backslash, newline *)
-Definition plain_sq (s : str) : bool := no_bs_nl s && negb (existsb (N.eqb SQ) s).
-
-Lemma raw_in_sq : forall s rest, plain_sq s = true -> lex_body SQ (s ++ SQ :: rest) = Some (s, rest).
-Proof.
-  intros s rest H. unfold plain_sq in H. apply andb_prop in H as [Hn Hq]. apply negb_true_iff in Hq.
-  induction s as [|c s IH].
-  - cbn [app]. apply lex_body_close.
-  - rewrite no_bs_nl_cons in Hn. apply andb_prop in Hn as [Hc Hn].
-    apply char_ok in Hc as (Hb & Hnl & Hcr & H0).
-    cbn [existsb] in Hq. apply orb_false_iff in Hq as [Hd Hq]. apply N.eqb_neq in Hd.
-    cbn [app]. rewrite lex_body_plain; try assumption; [|congruence].
-    rewrite (IH Hn Hq). reflexivity.
-Qed.
-
+(* the UUID text is emitted through repr, like dates (the raw interpolation between single quotes, finding uuid_default_raw, was
+   fixed upstream in fc6e947) *)
 Theorem conv_uuid_sound : forall o s x, conv_uuid o (JStr s) = Ok (Some x) ->
-  uuid_ok o s = true /\ raw x = JStr s /\ (plain_sq s = true -> eval_code (code x) = Some (PVUuid s)).
+  uuid_ok o s = true /\ raw x = JStr s /\ (repr_printable s = true -> eval_code (code x) = Some (PVUuid s)).
 Proof.
   intros o s x H. cbn [conv_uuid] in H. destruct (uuid_ok o s); [|discriminate]. injection H as <-.
   cbn [code raw]. repeat split. intros Hp.
-  change (eval_code ([85;85;73;68;40] ++ (SQ :: s ++ SQ :: [41])) = Some (PVUuid s)).
-  rewrite eval_uuid. cbn [lex_string]. change ((SQ =? DQ) || (SQ =? SQ)) with true. cbv iota.
-  rewrite (raw_in_sq s [41] Hp). reflexivity.
-Qed.
-
-(* finding uuid_default_raw: uuid.UUID accepts text with a leading newline; the emitted literal is then broken *)
-Theorem conv_uuid_raw_refuted : exists o s x,
-  conv_uuid o (JStr s) = Ok (Some x) /\ eval_code (code x) = None.
-Proof.
-  exists {| parse_float := fun _ => None; float_of_int := fun _ => None; isoparse_ok := fun _ => false; uuid_ok := fun _ => true |},
-         [10;49], {| code := s_uuid_open ++ [10;49] ++ s_uuid_close; raw := JStr [10;49] |}.
-  split; [reflexivity | vm_compute; reflexivity].
+  change (eval_code ([85;85;73;68;40] ++ (py_repr s ++ [41])) = Some (PVUuid s)).
+  rewrite eval_uuid, (repr_roundtrip_rest s [41] Hp). reflexivity.
 Qed.
 
 (* a quoted literal evaluates to the string it lexes to *)
@@ -204,7 +181,7 @@ Definition has_dq (s : str) : bool := existsb (N.eqb DQ) s.
 
 (* 0 = inside the proved domain; every other code is one named class (see known_findings.json):
    1 float_token, 2 string_lenient, 3 int_lenient, 4 bool_lenient, 5 default_dq, 6 float_lenient, 7 default_nonfinite_crash,
-   8 uuid_default_raw, 9 not repr-printable (restriction of the MODEL's lexer, not a defect), 10 none_lenient,
+   8 (unused since the upstream fix of uuid_default_raw), 9 not repr-printable (restriction of the MODEL's lexer, not a defect), 10 none_lenient,
    11 kind not covered by this theorem (enum, const, union, any, list: see their own theorems) *)
 Definition default_class (o : oracles) (k : ckind) (v : jval) : N :=
   match k with
@@ -242,7 +219,7 @@ Definition default_class (o : oracles) (k : ckind) (v : jval) : N :=
       end
   | CUuid =>
       match v with
-      | JStr s => if uuid_ok o s then (if plain_sq s then 0 else 8) else 0
+      | JStr s => if uuid_ok o s then (if repr_printable s then 0 else 9) else 0
       | _ => 0
       end
   | CNone => match v with JStr s => if str_eqb s s_None then 10 else 0 | _ => 0 end
@@ -303,7 +280,7 @@ Proof.
   - (* CUuid *)
     destruct v as [|b|z|f|s|s]; cbn [conv_uuid] in H; try discriminate.
     destruct (conv_uuid_sound o s x H) as (Hi & _ & He). cbn [default_class] in Hc. rewrite Hi in Hc.
-    destruct (plain_sq s); [|discriminate]. exists (PVUuid s). split; [cbn [typed_value]; rewrite Hi; reflexivity | apply He; reflexivity].
+    destruct (repr_printable s); [|discriminate]. exists (PVUuid s). split; [cbn [typed_value]; rewrite Hi; reflexivity | apply He; reflexivity].
   - (* CFile *) destruct v; discriminate H.
   - (* CModel *) destruct v; discriminate H.
 Qed.
